@@ -608,7 +608,7 @@ static RETCODE adfFileSeekExt_ ( struct AdfFile * const file,
     } else {
         if ( ! file->currentExt ) {
             file->currentExt = ( struct bFileExtBlock * )
-                malloc ( sizeof ( struct bFileExtBlock ) );
+                calloc ( 1, sizeof ( struct bFileExtBlock ) );
             if ( ! file->currentExt ) {
                 (*adfEnv.eFct)( "adfFileSeekExt : malloc" );
                 file->curDataPtr = 0;  // invalidate data ptr
@@ -798,7 +798,7 @@ struct AdfFile * adfFileOpen ( struct AdfVolume * const vol,
         return NULL;
     }
 
-    file->currentData = malloc ( 512 * sizeof(uint8_t) );
+    file->currentData = calloc ( 512, sizeof(uint8_t) );
     if ( file->currentData == NULL ) {
         adfEnv.eFct ( "adfFileOpen : malloc" );
         free ( file->fileHdr );
@@ -970,7 +970,7 @@ RETCODE adfFileReadNextBlock ( struct AdfFile * const file )
 
                 if ( file->currentExt == NULL ) {
                     file->currentExt = (struct bFileExtBlock *)
-                        malloc ( sizeof(struct bFileExtBlock) );
+                        calloc ( 1, sizeof(struct bFileExtBlock) );
                     if ( file->currentExt == NULL ) {
                         adfEnv.eFct ("adfReadNextFileBlock : malloc");
                         return RC_MALLOC;
@@ -1174,7 +1174,7 @@ RETCODE adfFileCreateNextBlock ( struct AdfFile * const file )
 
             /* the future block is the first file extension block */
             if (file->nDataBlock==MAX_DATABLK) {
-                file->currentExt=(struct bFileExtBlock*)malloc(sizeof(struct bFileExtBlock));
+                file->currentExt=(struct bFileExtBlock*)calloc(1,sizeof(struct bFileExtBlock));
                 if (!file->currentExt) {
                     adfSetBlockFree(file->volume, extSect);
                     adfSetBlockFree(file->volume, nSect);
